@@ -541,6 +541,43 @@ def run_buffers(ctx):
                               "(export, thumbprint or signing octets are no longer those of the imported secret)", case)
 
 
+def run_epk(ctx):
+    """The ephemeral public key a JWE publishes in its header (ECDH-ES, and the ECDH-1PU draft) is a JWK like any other: its
+    coordinates are the full size of the curve (RFC 7518 section 6.2.1.2), also when a coordinate starts with a zero octet."""
+    from authlib.jose import JsonWebEncryption
+    from authlib.jose.drafts import register_jwe_draft
+
+    class JWE(JsonWebEncryption):
+        pass
+    JWE.ALG_REGISTRY = dict(JsonWebEncryption.ALG_REGISTRY)
+    JWE.ENC_REGISTRY = dict(JsonWebEncryption.ENC_REGISTRY)
+    register_jwe_draft(JWE)
+    jwe = JWE()
+    sizes = {"P-256": 32, "P-521": 66}
+    n = 10 if ctx.tier == "quick" else 120
+    for crv, size in sizes.items():
+        recipient = ECKey.generate_key(crv, is_private=True)
+        sender = ECKey.generate_key(crv, is_private=True)
+        for alg in ("ECDH-ES", "ECDH-ES+A128KW", "ECDH-1PU", "ECDH-1PU+A128KW"):
+            short = 0
+            for i in range(n if crv == "P-521" else max(2, n // 5)):
+                enc = "A128GCM" if "1PU+" not in alg else "A128CBC-HS256"
+                kw = {"sender_key": sender} if "1PU" in alg else {}
+                try:
+                    tok = jwe.serialize_compact({"alg": alg, "enc": enc}, b"x", recipient, **kw)
+                    hdr = json.loads(base64.urlsafe_b64decode(tok.split(b".")[0] + b"=="))
+                    lens = [len(base64.urlsafe_b64decode(hdr["epk"][c] + "==")) for c in ("x", "y")]
+                except Exception as e:  # noqa: BLE001
+                    ctx.violation("C16:epk:raises:%s:%s" % (alg, type(e).__name__), "encrypting with %s on %s raised: %s" % (alg, crv, str(e)[:100]), {"alg": alg, "crv": crv})
+                    break
+                ctx.case({"epk": alg, "crv": crv, "i": i}, ("epk", alg, crv, i), "epk:%s" % alg.split("+")[0])
+                if lens != [size, size]:
+                    short += 1
+            if short:
+                ctx.violation("C16:epk:short-coordinate:%s" % alg.split("+")[0], "the ephemeral key published in a JWE header has a coordinate shorter than the curve size "
+                              "(%d of the messages on %s)" % (short, crv), {"alg": alg, "crv": crv})
+
+
 def run(ctx):
     ctx.rule = ("codecs: boundary and seeded random integers (<=4096 bit) and hostile base64 text; keys: EC scalars "
                 "(random, small, and constructed to give a short coordinate) on 4 curves, RSA fixtures + fresh keys, "
@@ -554,6 +591,7 @@ def run(ctx):
     run_key_histories(ctx)
     run_jwk_members_kept(ctx)
     run_buffers(ctx)
+    run_epk(ctx)
 
 
 def run_case(ctx, case):
